@@ -505,7 +505,7 @@ def case_op(c):
     with _owned_clock():
         try:
             P = _parent(c)
-        except Exception as e:
+        except (Exception, SystemExit) as e:         # blimpy's readers may call sys.exit
             V('parent', 'construction_raised', '%s: %s' % (type(e).__name__, e))
             return res
         if P.data.shape != (c['m'], c['n']):
@@ -555,6 +555,8 @@ def run(ctx):
     parents = []
     for (m, n) in sizes:                     # simplest first
         for kind in kinds:
+            if kind == 'h5' and (m < 3 or n < 3):
+                continue                     # blimpy's HDF5 reader refuses files with < 3 rows / channels
             for geom in GEOMS:
                 for asc in (True, False):
                     parents.append(dict(geom=geom, m=m, n=n, asc=asc, kind=kind, seed=int(ctx.seed)))
@@ -595,7 +597,8 @@ def run(ctx):
                      'integration sums compared with 8*L*eps(dtype)*sum|x| (file-backed frames integrate in float32); '
                      'normalisation not decided for constant results or when sigma clipping would remove samples',
                      't_start compared within %g s; setigen.frame.time replaced by a counter clock' % T_TOL,
-                     'what dedrift() does without any rate is recorded, not judged'],
+                     'what dedrift() does without any rate is recorded, not judged',
+                     '.h5-backed parents only for tchans>=3 and fchans>=3 (blimpy\'s HDF5 reader rejects smaller files)'],
         coverage_extra={'bounds': {'sizes_tchans_fchans': sizes, 'kinds': kinds, 'geometries': GEOMS,
                                    'q_base': Q_BASE_T if thorough else Q_BASE_Q,
                                    'q_limits': ['(n-0.5)/m -0.01, +0, +0.01', '(n-0.5)/(m-1) -0.01, +0, +0.01'],
